@@ -125,6 +125,12 @@ def check_refs(name, text, by_name, result, all_results):
             continue   # the target did not get far enough to publish its name
         if obj not in execs and obj.replace(' ', '\\x20') not in execs:
             fails.append(f'the command must use the object name {obj!r} that {target} creates: {execs[:400]}')
+        # … for *every* reference to it: no option may still carry the file name (a second reference to the same unit, a
+        # reference next to a hand-written Requires=)
+        for raw in (f' {target}:', f'source={target}', f'src={target}', f'--network {target}', f'image={target}'):   # (a bare `-v x.volume` without ':' is a container path, not a reference)
+            if raw in ' ' + execs + ' ' and obj != target:
+                fails.append(f'the command still carries the unresolved reference {raw.strip()!r} (object name {obj!r}): {execs[:400]}')
+                break
     return fails
 
 
